@@ -1,4 +1,4 @@
-add("C17", "checks/c17_blocks.c", ["default-asan", "default-plain", "c89-plain", "os-plain", "c89os-plain", "optnum-plain"], ["default-asan", "default-plain", "c89-plain", "os-plain", "os-asan", "c89os-plain", "optnum-plain", "isa-plain", "mcu-plain"],
+add("C17", "checks/c17_blocks.c", ["default-asan", "default-plain", "c89-plain", "os-plain", "c89os-plain", "optnum-plain", "noinfo-plain", "heap-plain"], ["default-asan", "default-plain", "c89-plain", "os-plain", "os-asan", "c89os-plain", "optnum-plain", "isa-plain", "mcu-plain", "noinfo-plain", "heap-plain"],
     "cases = scripted query responses executed by the real library through a handler of the check: a script is a sequence of "
     "result calls (SCPI_ResultArray<T> in NORMAL/SWAPPED format, SCPI_ResultArbitraryBlock, SCPI_ResultArbitraryBlockHeader + "
     "SCPI_ResultArbitraryBlockData, SCPI_ResultInt32 before/between/after) and every call's captured bytes are compared with an "
